@@ -788,6 +788,10 @@ func (server *Server) registerCoreExecutors() {
 		opt.MINEXCLUSIVE = minEx
 		opt.MAXEXCLUSIVE = maxEx
 
+		// LIMIT counts from the highest score: applies it after reversing the whole range.
+		offset, count := opt.Offset, opt.Count
+		opt.Offset, opt.Count = 0, -1
+
 		msg, err := server.userCommandHandler.ZRangeByScore(conn, key, min, max, opt)
 		if err != nil {
 			return msg, err
@@ -798,10 +802,33 @@ func (server *Server) registerCoreExecutors() {
 			return msg, err
 		}
 
+		step := 1
 		if opt.WITHSCORES {
-			return NewArrayMessageWithArray(array.ReverseBy(2)), nil
+			step = 2
 		}
-		return NewArrayMessageWithArray(array.Reverse()), nil
+		reversedArray := array.ReverseBy(step)
+		if offset == 0 && count < 0 {
+			return NewArrayMessageWithArray(reversedArray), nil
+		}
+
+		reversedMsgs, err := reversedArray.NextMessages()
+		if err != nil {
+			return nil, err
+		}
+		memberCount := len(reversedMsgs) / step
+		first := offset
+		if first < 0 || memberCount < first {
+			first = memberCount
+		}
+		last := memberCount
+		if 0 <= count && count < (last-first) {
+			last = first + count
+		}
+		limitedArray := proto.NewArray()
+		for _, reversedMsg := range reversedMsgs[first*step : last*step] {
+			limitedArray.Append(reversedMsg)
+		}
+		return NewArrayMessageWithArray(limitedArray), nil
 	})
 
 	server.RegisterExexutor("ZREM", func(conn *Conn, cmd string, args Arguments) (*Message, error) {
